@@ -185,6 +185,28 @@ rc::Gen<Case> gen_case(const vf::Options& opt) {
         long cap = *vf::oneof<long>({0, 0, 1, 2, 4});
         c.cfg.push_back(cap);
         if (single_vcpu_buffered && cap > 0) { c.cfg[0] = 1; for (auto& r : c.S("actor")) r[0] = 0; }
+        // family "rendezvous window" (unbuffered only): several receivers parked, one sender with short timed sends, one with
+        // try_send bursts and compute pauses - aims at the moments between a value being taken and its sender running again
+        if (cap == 0 && !excl_two_senders_unbuf && *vf::range(0, 2) == 0) {
+            c.S("actor").clear();
+            long nv = c.cfg[0];
+            long nrecv = *vf::range(2, 3);
+            long nact = nrecv + 2;
+            for (long i = 0; i < nact; i++) c.S("actor").push_back({*vf::range(0, nv - 1), 0});
+            for (long i = 0; i < nrecv; i++) {
+                long n = *vf::range(1, 3);
+                for (long k = 0; k < n; k++) c.S("a" + std::to_string(i)).push_back({OP_RECV, *rc::gen::weightedOneOf<long>({{3, rc::gen::just<long>(-1)}, {1, vf::range(200, 3000)}})});
+            }
+            { auto& prog = c.S("a" + std::to_string(nrecv)); long n = *vf::range(1, 3);
+              for (long k = 0; k < n; k++) { if (*vf::range(0, 2) == 0) prog.push_back({OP_YIELD}); prog.push_back({OP_SEND, *vf::range(1, 60)}); } }
+            { auto& prog = c.S("a" + std::to_string(nrecv + 1)); long n = *vf::range(2, 5);
+              for (long k = 0; k < n; k++) {
+                  long kind = *rc::gen::weightedOneOf<long>({{4, rc::gen::just<long>(OP_TRY_SEND)}, {2, rc::gen::just<long>(OP_YIELD)}, {2, rc::gen::just<long>(OP_BURN)}});
+                  if (kind == OP_BURN) prog.push_back({kind, *vf::range(1, 80)}); else prog.push_back({kind});
+              } }
+            c.S("sched") = *gen_schedule(40);
+            return c;
+        }
         // roles: first half senders, rest receivers, with a few mixed ops
         long senders = 0;
         for (long i = 0; i < na; i++) {
